@@ -77,6 +77,38 @@ def correspondence(ctx):
                 except TypeError:
                     pass
         _immutability(ctx, name, pool, rng)
+        _non_ascii_digits(ctx, name, pool, rng)
+
+
+def _non_ascii_digits(ctx, name, pool, rng):
+    """a decimal digit written in another script (fullwidth, Arabic-Indic, Devanagari): where the class accepts the
+    text and the two versions are equal, their hashes must be equal too (no theorem covers non-ASCII text)"""
+    stream = "non-ascii-digits:" + name
+    cls = S.vclass(name)
+    for s, v in pool:
+        idx = [i for i, ch in enumerate(s) if ch in "0123456789"]
+        if not idx:
+            continue
+        i = rng.choice(idx)
+        for base in (0xFF10, 0x0660, 0x0966):
+            t = s[:i] + chr(base + int(s[i])) + s[i + 1:]
+            try:
+                w = cls(t)
+                eq = bool(w == v) and bool(v == w)
+            except Exception:  # noqa: BLE001
+                continue
+            ctx.count(stream, key=t, nontrivial=eq)
+            if not eq:
+                continue
+            try:
+                ok = hash(w) == hash(v) and len({w, v}) == 1
+            except TypeError:
+                continue
+            if not ok:
+                ctx.disagree(stream, "pair", "equal but hash/set differ", "-", True,
+                             {"scheme": name, "a": s, "b": t, "clause": "== without equal hash (non-ASCII digit)"},
+                             region=_region(name), spec="== implies equal hash")
+                return
 
 
 def _snap(x):
